@@ -22,6 +22,14 @@
 //	              (honest votes were not counted towards a different effect / not turned away);
 //	              (C) if both claims are individually tallied (accepted, observed) under one key,
 //	              H and S must have the same effect.
+//	late votes  - the fork of run H is kept (X observed); for a fixed number of pairs per field the
+//	              validator that has not voted at this nonce yet votes X' in the NEXT block (real msg
+//	              server -> Attest, then the real end-blocker). Observed: the store keys of the
+//	              records the late vote created / changed, the voter list of the observed record
+//	              of X before / after, the record the response event names, end-block events and
+//	              state delta. Oracles: (L-A) listed field differs and the late vote is accepted =>
+//	              it is not recorded on the observed record of X; (L-B) if it was recorded there,
+//	              the block must be indistinguishable from one with a late vote for X itself.
 package c11
 
 import (
@@ -50,6 +58,11 @@ type params struct {
 	Vals  int    `json:"vals,omitempty"`
 	Type  string `json:"type,omitempty"` // chain: claim type URL
 	Base  int    `json:"base,omitempty"` // chain: scenario index
+	Late  int    `json:"late,omitempty"` // chain: late votes (after the nonce was observed) per field that must have been ACCEPTED
+}
+
+func lateSig(typeURL, field string) string {
+	return "late-vote-pooled/" + shortName(typeURL) + "/" + field
 }
 
 func sig(typeURL, field string) string {
@@ -437,7 +450,7 @@ func runChain(c fw.Case, p params, rec *fw.Recorder) {
 		return vs
 	}
 	rec.Op(map[string]any{"op": "H", "x": claimJSON(X)})
-	H := w.run(honestVotes(X))
+	H, post := w.runKeep(honestVotes(X))
 	rec.Count("chain_runs", 1)
 	if H.Panic != "" {
 		rec.Inconclusive("base run panicked: " + H.Panic)
@@ -487,6 +500,30 @@ func runChain(c fw.Case, p params, rec *fw.Recorder) {
 			rec.Violation(v.sig, v.msg, v.wit)
 		}
 	}()
+	// the state in which X has been observed: late votes (next block) branch off it
+	var lw *lateWorld
+	if p.Late > 0 {
+		var lerr error
+		if lw, lerr = w.newLateWorld(post, keyX, vote{w.byz, X}); lerr != nil {
+			rec.Inconclusive("late-vote world: " + lerr.Error())
+			lw = nil
+		} else {
+			rec.Count("chain_late_worlds", 1)
+			rec.Count("chain_runs", 1)
+			// control: the late voter votes the IDENTICAL claim X. It lands in the observed record
+			// (same claim: that is what pooling is for) and is the reference for "a pooled late
+			// vote for a different claim must not change the outcome".
+			cx := lw.ctrlX
+			if cx.Vote.Accepted && cx.Panic == "" {
+				rec.Count("chain_late_identical_vote_accepted", 1)
+				if len(diffRuns(runOut{EndEvents: lw.ctrlEnd, Delta: lw.ctrlDiff}, runOut{EndEvents: cx.EndEvents, Delta: cx.Delta}, 0, false)) > 0 {
+					rec.Count("chain_late_identical_vote_changes_outcome/"+tn, 1) // not a C11 matter (same claim)
+				}
+			} else {
+				rec.Count("chain_late_identical_vote_rejected/"+tn, 1)
+			}
+		}
+	}
 	pool := w.pool(X)
 	for _, fi := range fields {
 		if fi.Excl != "" {
@@ -498,6 +535,7 @@ func runChain(c fw.Case, p params, rec *fw.Recorder) {
 		}
 		_, isListed := listed[fi.Proto]
 		seen := map[string]bool{}
+		lateAccepted, lateTried := 0, 0
 		for _, v := range valuesFor(X, fi, pool, r, p.Vals) {
 			X2, ok := mutate(X, fi, v)
 			if !ok {
@@ -593,6 +631,72 @@ func runChain(c fw.Case, p params, rec *fw.Recorder) {
 			}
 			if !sAccepted {
 				rec.Count("chain_xprime_not_accepted_standalone/"+tn+"/"+fi.Proto, 1)
+			}
+			// (L) the same pair with the byzantine vote arriving LATE: the honest validators have
+			// voted X and the end-blocker has observed it; in the next block the validator that has
+			// not voted at this nonce yet votes X'. Fixed budget per field: until p.Late late votes
+			// were accepted, at most 3*p.Late tried (a refused late vote costs next to nothing).
+			if lw != nil && lateAccepted < p.Late && lateTried < 3*p.Late {
+				lateTried++
+				rec.Op(map[string]any{"op": "late", "field": fi.Proto, "x_prime_value": fieldString(X2, fi)})
+				L := w.late(lw, vote{w.byz, X2})
+				rec.Count("chain_runs", 1)
+				rec.Count("chain_late_votes/"+tn+"/"+fi.Proto, 1)
+				if L.Panic != "" {
+					rec.Count("chain_late_panic/"+tn+"/"+fi.Proto, 1)
+				}
+				if !L.Vote.Accepted {
+					rec.Count("chain_late_vote_rejected", 1)
+				} else {
+					lateAccepted++
+					rec.Eval(1)
+					rec.Count("chain_late_vote_accepted", 1)
+					rec.Distinct("late|" + p.Type + "|" + fi.Proto + "|" + fmt.Sprint(claimJSON(X)) + "|" + fieldString(X2, fi))
+					// pooled: the late vote changed the observed record of X (on the keys and the
+					// voter list the real keeper wrote)
+					latePooled := false
+					for _, k := range L.Vote.AttKeys {
+						if k == keyX {
+							latePooled = true
+						}
+					}
+					if !sameStrings(L.VotersXAfter, lw.votersX) {
+						latePooled = true
+					}
+					if latePooled {
+						rec.Count("chain_late_pooled/"+tn+"/"+fi.Proto, 1)
+					} else {
+						rec.Count("chain_late_separate_record", 1)
+					}
+					if L.EventAttID != "" && !L.EventAttFound {
+						rec.Count("chain_late_event_names_missing_record/"+tn+"/"+fi.Proto, 1)
+					}
+					// what the next block does with the late vote vs. without it (information), and vs.
+					// a late vote for the identical claim X (reference of the pooled-vote oracle)
+					if d0 := diffRuns(runOut{EndEvents: lw.ctrlEnd, Delta: lw.ctrlDiff}, runOut{EndEvents: L.EndEvents, Delta: L.Delta, Panic: L.Panic}, 0, false); len(d0) > 0 {
+						rec.Count("chain_late_vote_changes_outcome/"+tn+"/"+fi.Proto, 1)
+					}
+					var dL []string
+					if cx := lw.ctrlX; cx.Vote.Accepted && cx.Panic == "" {
+						dL = diffRuns(runOut{EndEvents: cx.EndEvents, Delta: cx.Delta}, runOut{EndEvents: L.EndEvents, Delta: L.Delta, Panic: L.Panic}, 0, false)
+					}
+					lwit := map[string]any{"type": p.Type, "field": fi.Proto, "x": claimJSON(X), "x_prime_value": fieldString(X2, fi), "scenario": p.Base,
+						"att_key_x": keyX, "honest_end_events": H.EndEvents, "voters_of_observed_record_before": lw.votersX, "late": L,
+						"differences_to_late_vote_for_identical_claim": dL}
+					switch {
+					case latePooled && len(dL) > 0:
+						// honest votes and a differing late vote in one record, and the outcome moved
+						lwit["oracle"] = "late-pooled-run-equals-honest-run"
+						pend = append(pend, pending{0, lateSig(p.Type, fi.Proto),
+							fmt.Sprintf("%s: after the honest votes (90%% power) for %s=%s were observed, a late vote for a claim with %s=%s was recorded on the same attestation record %s and the outcome differs from a late vote for the identical claim: %s",
+								tn, fi.Proto, fieldString(X, fi), fi.Proto, fieldString(X2, fi), trunc(keyX), strings.Join(head(dL, 3), "; ")), lwit})
+					case latePooled && isListed && !caseOnly:
+						lwit["oracle"] = "listed-field-changes-key (late vote, observed store keys and voter lists)"
+						pend = append(pend, pending{2, lateSig(p.Type, fi.Proto),
+							fmt.Sprintf("%s: a vote that arrives after the nonce was observed, for a claim that differs in %s (%s: %s instead of %s), is recorded on the observed attestation of the honest claim (store key %s; %d -> %d voters)",
+								tn, fi.Proto, listed[fi.Proto], fieldString(X2, fi), fieldString(X, fi), keyX, len(lw.votersX), len(L.VotersXAfter)), lwit})
+					}
+				}
 			}
 		}
 	}
@@ -701,10 +805,10 @@ func run(c fw.Case, tier string, rec *fw.Recorder) {
 func cases(tier string, seed int64) []fw.Case {
 	var cs []fw.Case
 	nPure, bases, vals := 4, 12, 40
-	scen, cvals := 4, 36
+	scen, cvals, late := 4, 36, 6
 	if tier == "thorough" {
 		nPure, bases, vals = 16, 40, 120
-		scen, cvals = 12, 90
+		scen, cvals, late = 12, 90, 20
 	}
 	// chain cases first: their witnesses (real executions) are the ones kept as replay files
 	urls, _ := claimTypes()
@@ -720,7 +824,7 @@ func cases(tier string, seed int64) []fw.Case {
 			n = scen * 3 / 2 // three
 		}
 		for b := 0; b < n; b++ {
-			cs = append(cs, fw.MkCase(fmt.Sprintf("chain-%s-%02d", shortName(u), b), seed*7000003+int64(len(cs)), params{Mode: "chain", Type: u, Base: b, Vals: cvals}))
+			cs = append(cs, fw.MkCase(fmt.Sprintf("chain-%s-%02d", shortName(u), b), seed*7000003+int64(len(cs)), params{Mode: "chain", Type: u, Base: b, Vals: cvals, Late: late}))
 		}
 	}
 	for i := 0; i < nPure; i++ {
@@ -737,7 +841,8 @@ func init() {
 		Rule: "claim types = all implementations of EthereumClaim in the interface registry; fields = all protobuf fields except orchestrator (voter identity) and metadata (tx metadata). " +
 			"pure part: seeded random base claims x every field x boundary/hostile/random values (uint64, math.Int, strings incl. case variants, separators, world addresses); a pair is (base, single-field mutant surviving the wire encoding); oracle on real ClaimHash/GetAttestationKey. " +
 			"chain part: per claim type several scenario bases (different handler paths, both chains) on the real app; per pair three fork executions (honest-only X, honest-only X', byzantine-first X' then honest X) through the real msg server, Attest, end-block tally and attestation handler; compared: acceptance, attestation store keys, end-block events, delta of all KV stores. " +
-			"distinct_nontrivial = distinct (type, field, base claim, mutant value) pairs whose field value really differs; evaluations = pairs judged by an oracle",
+			"late votes: the first Late pairs per field (until Late late votes were accepted, at most 3*Late tried) are also run with the 10 % validator voting X' in the block AFTER the honest votes for X were observed; compared: attestation store keys and voter list of the observed record, outcome against a late vote for X itself. " +
+			"distinct_nontrivial = distinct (type, field, base claim, mutant value) pairs whose field value really differs (late-vote pairs counted separately); evaluations = pairs judged by an oracle",
 		Assumptions: []string{
 			"voter identity = orchestrator + metadata (excluded by the property's quantifier); all other fields are mutated",
 			"'nonce' of the statement = skyway_nonce (the nonce the tally and the key use); event_nonce is not on the list and is judged by the differential oracle only",
@@ -745,12 +850,13 @@ func init() {
 			"only values that survive the protobuf wire encoding are compared (a nil math.Int cannot be produced by marshalling)",
 			"single-field differences only, as the property quantifies; two-field separator shifts are probed and counted, not judged",
 			"masked from the state comparison: attestation records (claim body + voter list) and the byzantine voter's own last-nonce entry",
-			"byzantine voter holds 10 % of the power, honest voters 90 %; the byzantine vote arrives first (the order in which its body is the one stored)",
+			"byzantine voter holds 10 % of the power, honest voters 90 %; the byzantine vote arrives first (the order in which its body is the one stored), or one block after the honest votes were observed (late vote of a lagging validator)",
+			"a vote recorded on the observed attestation of a claim that differs in a listed field counts as pooled even though the tally is over (the statement's first sentence; the voter list of the observed record is what the chain reports as the votes for that event)",
 		},
 		Exhaustive:  func(string) bool { return false },
 		Cases:       cases,
 		Run:         run,
-		MinCounters: []string{"pure_types", "pure_listed_key_differs", "chain_worlds", "key_model_checked", "abci_crosscheck_ok", "chain_xprime_vote_accepted", "chain_base_applied/MsgSendToPalomaClaim", "chain_base_applied/MsgBatchSendToRemoteClaim", "chain_base_applied/MsgLightNodeSaleClaim"},
+		MinCounters: []string{"pure_types", "pure_listed_key_differs", "chain_worlds", "key_model_checked", "abci_crosscheck_ok", "chain_xprime_vote_accepted", "chain_late_vote_accepted", "chain_late_identical_vote_accepted", "chain_base_applied/MsgSendToPalomaClaim", "chain_base_applied/MsgBatchSendToRemoteClaim", "chain_base_applied/MsgLightNodeSaleClaim"},
 		TimeoutS:    1500,
 	})
 }
